@@ -3,8 +3,8 @@
    Model: Model/Link.v (FindLogicalLinkage with its redundant grandchild exploration, CollapseAdjacentOperators,
    GenerateReferenceSlice), Model/Tabular.v (the cells).  Spec: path_ops (operators from p's parent up to the lowest
    common ancestor and down to q's parent), Spec/TabSpec.spec_links. *)
-From Coq Require Import List Arith ZArith.
-From IGP Require Import Base.Str Base.Outcome Model.Tree Model.Link Model.Tabular Spec.TabSpec Proofs.LinkProof.
+From Coq Require Import List Arith ZArith Sorted.
+From IGP Require Import Base.Str Base.Outcome Model.Tree Model.Link Model.Tabular Spec.TabSpec Proofs.LinkProof Proofs.RefsProof.
 Import ListNotations.
 
 (* the operators named between two alternatives are exactly those on the tree path between them - for every
@@ -19,12 +19,18 @@ Theorem C05_path_symmetric : forall t p q, is_leaf_at t p -> is_leaf_at t q -> p
 Proof. exact path_ops_sym. Qed.
 Print Assumptions C05_path_symmetric.
 
-(* range compression of row references loses and invents nothing - PARTIAL: the unbounded statement
-     forall ids, strictly increasing ids -> expand_refs (fold_left add_ref ids []) = map (fun i => i + 1) ids
-   is not proved yet; what is proved is the finite sweep over every strictly increasing list of indices below 11 *)
-Theorem C05_refs_roundtrip_partial : forallb refs_ok (sublists (seq 0 11)) = true.
-Proof. exact refs_roundtrip_upto_11. Qed.
-Print Assumptions C05_refs_roundtrip_partial.
+(* range compression of row references ("3-5,8") loses and invents nothing: the compressed list of ANY sequence of row
+   numbers in which no number directly follows itself - in particular every increasing one, which is what the
+   exporter feeds it - expands to exactly that sequence; no bound on the numbers or the length *)
+Theorem C05_refs_roundtrip : forall ids, match ids with [] => True | i :: t => no_equal_neighbours i t end ->
+  expand_refs (fold_left add_ref ids []) = map (fun i => (Z.of_nat i + 1)%Z) ids.
+Proof. exact refs_roundtrip. Qed.
+Print Assumptions C05_refs_roundtrip.
+
+Theorem C05_refs_roundtrip_increasing : forall ids, Sorted.StronglySorted lt ids ->
+  expand_refs (fold_left add_ref ids []) = map (fun i => (Z.of_nat i + 1)%Z) ids.
+Proof. exact refs_roundtrip_increasing. Qed.
+Print Assumptions C05_refs_roundtrip_increasing.
 
 (* adjacent conjunction-type operators are merged, nothing else is touched *)
 Theorem C05_collapse_keeps_other_operators : forall l, filter (fun o => negb (collapsible o)) (collapse_ops l) = filter (fun o => negb (collapsible o)) l.
